@@ -28,6 +28,8 @@ def cases(tier):
     for tgt in ('GULP', 'excel'):
         for c in PK.pair_cases(tier, from_zero=True, api_labels=False):
             if tgt == 'excel':
+                if any(n.startswith('obj_') for _a, _b, n in c['pots']):
+                    continue      # the workbook is documented to be built from potentialFunction, which these objects do not define / override
                 if c.get('sweep') and (c['nr'] > 130 or (tier == 'quick' and hash((c['cutoff'], c['nr'])) % 4)):
                     continue
                 keys = [tuple(sorted((a, b))) for a, b, _n in c['pots']]
